@@ -6,6 +6,7 @@ import (
 	"time"
 
 	"github.com/istio-ecosystem/authservice/zzverif/ev"
+	"github.com/istio-ecosystem/authservice/zzverif/schedx"
 	"github.com/istio-ecosystem/authservice/zzverif/seqx"
 	"github.com/istio-ecosystem/authservice/zzverif/world"
 )
@@ -174,7 +175,7 @@ func c01Opts(tier string, spec world.Spec) hOpts {
 }
 
 func c01Run(run *ev.Run) {
-	run.Rule = "breadth-first search over histories of requests (app/callback/logout x cookie none/each live session/stale/attacker-chosen), clock advances to and just past the earliest token expiry (by the provider's ledger and by what the service noted down), provider answers (honest shapes - with/without refresh token, refresh without id_token, access token of 3 s, no expires_in, azp - on a single session one level deeper; HTTP 500, forged signature, non-Bearer as deviations) and environment faults (every store call, token-endpoint call and key lookup of the check failing before/after effect or crashing there; pairs in thorough) on the real handler + real store; state = canonical store content + provider ledger; a class is (request kind, verdict, fault position, provider answer, session present)"
+	run.Rule = "breadth-first search over histories of requests (app/callback/logout x cookie none/each live session/stale/attacker-chosen), clock advances to and just past the earliest token expiry (by the provider's ledger and by what the service noted down), provider answers (honest shapes - with/without refresh token, refresh without id_token, access token of 3 s, no expires_in, azp - on a single session one level deeper; HTTP 500, forged signature, non-Bearer as deviations) and environment faults (every store call, token-endpoint call and key lookup of the check failing before/after effect or crashing there; pairs in thorough) on the real handler + real store; state = canonical store content + provider ledger; a class is (request kind, verdict, fault position, provider answer, session present); first, all interleavings (pre-emption bound 2 quick, 3 thorough) of two overlapping checks of one expired session against a provider that rotates refresh tokens (honest / refresh without id_token / rotate once; memory and Redis), each OK judged for the thread that produced it"
 	run.Assumptions = []string{
 		"handler-level world: Process() on a handler built per check exactly as ExtAuthZFilter.Check builds it; the filter loop itself is C08's subject",
 		"session time-outs are 0 except in the two expiry specs (absolute time-out 900 s); idle time-outs and limits at the boundary are C10's subject",
@@ -186,6 +187,17 @@ func c01Run(run *ev.Run) {
 		depth = 6
 	}
 	var total seqx.Stats
+	// overlapping checks of one expired session (small, first): the provider rotates the refresh token, so it honours
+	// one refresh and refuses the other; each OK verdict must be justified for the check that produced it
+	for _, sc := range c01ConcScenarios(run.Tier) {
+		cs := schedx.Explore(run, "C01", sc)
+		total.Histories += cs.Schedules
+		total.Transitions += cs.Points
+		run.Class(fmt.Sprintf("overlapping-checks|%s|outcomes=%d", sc.Name, len(cs.Distinct)))
+		if !cs.Complete {
+			run.Cap("scenario not completed: " + sc.Name)
+		}
+	}
 	for _, spec := range []world.Spec{
 		// (the small searches first: a deadline cuts the big ones, not these)
 		// honest answer shapes (refresh without id_token, access token of 3 s, no expires_in, azp) on one session
@@ -303,7 +315,91 @@ func c01Run(run *ev.Run) {
 	run.Extra["depth"] = depth
 }
 
+func c01ConcScenarios(tier string) []schedx.Scenario {
+	b := 2
+	if tier == "thorough" {
+		b = 3
+	}
+	var scs []schedx.Scenario
+	for _, st := range []string{"memory", "redis"} {
+		for _, ans := range []world.Answer{{Name: "honest"}, {Name: "refresh-without-id-token", NoIDToken: true}, {Name: "rotate-once", RotateOnce: true}} {
+			scs = append(scs, c01ConcScenario(st, ans, b))
+		}
+	}
+	return scs
+}
+
+// c01ConcScenario: two checks on ONE session whose tokens have expired overlap. An OK verdict of a check is justified
+// by a successful refresh exchange of THAT check (sent by its thread, answered 200 with an honest body), or else by
+// forwarding an ID token that is unexpired by the provider's ledger (for instance the one the other check just
+// obtained); a refused or failed refresh justifies nothing.
+func c01ConcScenario(store string, ans world.Answer, bound int) schedx.Scenario {
+	return schedx.Scenario{Name: fmt.Sprintf("2 checks on one expired session idp=%s store=%s", ans.Name, store), Bound: bound, PanicIsViolation: true,
+		Setup: func() *schedx.Instance {
+			w := world.New(world.Spec{Store: store, Forward: true})
+			sid := c15Prepare(w, "expired")
+			w.Envs = []*world.Env{{}, {}}
+			a := ans
+			var res [2]world.Result
+			bodies := make([]func(), 2)
+			for i := range bodies {
+				i := i
+				bodies[i] = func() { res[i] = w.Do(world.Req{Path: "/", Cookie: sid}, world.Plan{Answer: &a}) }
+			}
+			return &schedx.Instance{Threads: bodies, Close: w.Close, Finish: func(x *schedx.Exec) (string, []schedx.Violation) {
+				var viols []schedx.Violation
+				var obs strings.Builder
+				for i, r := range res {
+					refreshed := false
+					for _, tr := range w.IdP.TokenReqs {
+						if tr.Thread == i && tr.Grant == "refresh_token" && tr.Result == "ok" && tr.Answered == 200 && tr.HonestOK {
+							refreshed = true
+						}
+					}
+					fmt.Fprintf(&obs, "t%d(ok=%v refreshed=%v) ", i, r.OK, refreshed)
+					if !r.OK || refreshed {
+						continue
+					}
+					why := "no-id-token-forwarded"
+					for _, h := range r.Headers {
+						if strings.EqualFold(h[0], "authorization") {
+							tok := strings.TrimPrefix(h[1], "Bearer ")
+							is := w.IdP.Issued[tok]
+							switch {
+							case is == nil || is.Kind != "id":
+								why = "forwarded-id-token-not-issued-by-provider"
+							case is.Exp.Before(w.Now()):
+								why = "id-token-expired-no-successful-refresh"
+							default:
+								why = ""
+							}
+						}
+					}
+					if why != "" {
+						viols = append(viols, schedx.Violation{Signature: fmt.Sprintf("unjustified-OK overlapping-checks reason=%s idp=%s store=%s", why, ans.Name, store),
+							Message: fmt.Sprintf("thread %d is answered OK although its own refresh did not succeed and the tokens it forwards are not valid (%s)", i, why)})
+					}
+				}
+				return obs.String(), viols
+			}}
+		}}
+}
+
 func c01ReplayFn(path string) int {
+	var sr schedx.Replay
+	if _, err := loadReplay(path, &sr); err == nil && sr.Scenario != "" {
+		for _, sc := range append(c01ConcScenarios("quick"), c01ConcScenarios("thorough")...) {
+			if sc.Name == sr.Scenario {
+				obs, v, err := schedx.ReplayOnce(sc, sr.Choices)
+				if err != nil {
+					fmt.Println(err)
+					return 2
+				}
+				return replayVerdict("C01", len(v) > 0, obs)
+			}
+		}
+		return 2
+	}
 	var rp c01Replay
 	if _, err := loadReplay(path, &rp); err != nil {
 		fmt.Println(err)
